@@ -37,7 +37,7 @@ REQUIRED = {
     "C06": {"transition:teleop->auto": 20, "transition:auto->teleop": 20, "transition:teleop->disabled": 30,
             "transition:disabled->teleop": 30, "transition:auto->test": 10, "setup-checked": 300, "lifecycle-fault-swallowed": 30, "statemachine-component": 100, "end:teleop": 10, "end:auto": 10,
             "end:disabled": 10, "end:test": 10, "robot-without-some-mode-hooks": 100,
-            "hooks-that-are-not-plain-methods": 100, "component-derived-from-MagicComponent-through-a-base-class": 100, "mode-named-like-a-component": 20, "falsy-component": 100,
+            "hooks-that-are-not-plain-methods": 100, "execute-inside-bracket-checked": 5000, "component-derived-from-MagicComponent-through-a-base-class": 100, "mode-named-like-a-component": 20, "falsy-component": 100,
             "driver-station-changed-mid-iteration": 300},
     "C07": {"swallowed:execute": 20, "swallowed:on_enable": 10, "swallowed:on_disable": 10, "swallowed:robotPeriodic": 10,
             "swallowed:teleopPeriodic-in-auto": 5, "swallowed:feedback": 10, "swallowed:mode.on_iteration": 5,
@@ -415,6 +415,34 @@ def expected_chunks(spec):
             meta.append({"mode": m, "seg": si, "k": k, "prev": prev if k == 0 else m})
         prev = m
     return chunks, meta, leave(prev)
+
+
+def check_bracket(spec, run, V, acc):
+    """C06's closing sentence, stated directly on the observed log (no expected sequence needed): for a component that has
+    both hooks, execute() only ever runs after its on_enable() and before its next on_disable()."""
+    state = {}
+    for cn, c in spec["components"].items():
+        if c["has_on_enable"] and c["has_on_disable"]:
+            state[cn] = False
+    if not state:
+        return
+    for e in run.log:
+        if e[0] != "cb":
+            continue
+        site = e[1]
+        cn, _, what = site.rpartition(".")
+        if cn not in state:
+            continue
+        if what == "on_enable":
+            state[cn] = True
+        elif what == "on_disable":
+            state[cn] = False
+        elif what == "execute":
+            acc.checks += 1
+            V.ev("execute-inside-bracket-checked")
+            if not state[cn]:
+                V.add("C06", "execute-outside-bracket", f"{site}#{e[2]} ran while {cn} was not between its on_enable() and its next on_disable()")
+                return
 
 
 def check_auto_mode_iterations(spec, run, V, acc):
@@ -993,6 +1021,8 @@ def run_case(spec, acc):
     check_setup(spec, run, V, acc)
     if spec["pid"] == "C05":
         check_auto_mode_iterations(spec, run, V, acc)
+    if spec["pid"] == "C06":
+        check_bracket(spec, run, V, acc)
     check_mode_and_timing(spec, run, V, acc)
     check_faults(spec, run, V, acc, fired, n_ok)
     if spec["pid"] == "C07" and any(e[0] == "raise" for e in run.log):
